@@ -87,6 +87,7 @@ let site_of (c : string) : string =
   | "tfunc" :: _ -> "templater-function-arguments"
   | "vsrc" :: _ :: _ :: k :: _ -> "variable-source-" ^ k ^ "-Init"
   | "sdesc" :: _ -> "scenario-ReadAmmoConfig"
+  | "rerr" :: ptype :: _ -> "provider-read-error-" ^ String.map (fun ch -> if ch = '/' then '-' else ch) ptype
   | "popt" :: ptype :: _ -> "provider-options-" ^ String.map (fun ch -> if ch = '/' then '-' else ch) ptype
   | "ctag" :: typ :: _ -> "config-value-ResolveCustomTags-" ^ typ
   | ["indext"; _; _; len; _] -> if len = "0" then "extractFromSlice-empty-list" else "extractFromSlice"
@@ -702,6 +703,43 @@ let rec predict_inner (c : string) (obs : string) : string * string * bool =
                   "BAD:" ^ site_of c ^ " refused-entry-deliveries expected " ^ e
               | _ -> "ok") in
       (p, v, true)
+  | "rerr" :: ptype :: nread :: file :: opts ->
+      (* a provider on a source whose Read fails with an I/O error after [nread] bytes, in every pass.  The options
+         are plain decimals / booleans.  SPECIFICATION: once the reader has met the error the run ends with it: the
+         entries behind that byte were never read, a successful end would hide them.  grpc/json: the whole
+         observation is predicted (rerr_spec: complete lines, the unterminated rest as a last token, then the
+         error; theorems C13_grpcjson_read_error_...); http providers: the outcome class only *)
+      let fileb = bytes_of_hex file in
+      let n = int_of_string nread in
+      let opts = List.map (fun o -> match String.index_opt o '=' with
+        | Some i -> (String.sub o 0 i, string_of_hexs (String.sub o (i + 1) (String.length o - i - 1)))
+        | None -> (o, "")) opts in
+      let num k = (match List.assoc_opt k opts with Some v -> z_of_string v | None -> z_of_int 0) in
+      let st = status_of obs in
+      let short = n < List.length fileb in
+      if ptype = "grpc/json" then
+        (match grpc_read_error_expected unmarshal (List.assoc_opt "continueonerror" opts = Some "true")
+                 (num "limit") (num "passes") (num "maxammosize") (nat_of_int k_acq) fileb (nat_of_int n) with
+         | None -> ("newerr", (if bad_status st then "BAD:" ^ site_of c ^ " outcome " ^ st else "ok"), true)
+         | Some rs ->
+             let rec pr i = function
+               | [] -> [if i >= k_acq then "more" else "truncated"]
+               | PDeliver (t, cl) :: r -> Printf.sprintf "G:%s:%s" (hex_of_bytes t) (hex_of_bytes cl) :: pr (i + 1) r
+               | PInvalid :: r -> "GI" :: pr (i + 1) r
+               | PErr0 :: _ -> ["err"]
+               | PDone :: _ -> ["ok"] in
+             let e = String.concat " " (pr 0 rs) in
+             (e,
+              (if bad_status st then "BAD:" ^ site_of c ^ " outcome " ^ st
+               else if status_of e = "err" && st <> "err" then
+                 "BAD:" ^ site_of c ^ " read-error-not-reported outcome " ^ st ^ " (the source failed while it was read: the run must end with an error)"
+               else "ok"), true))
+      else
+        (obs,
+         (if bad_status st then "BAD:" ^ site_of c ^ " outcome " ^ st
+          else if short && not (List.mem_assoc "limit" opts) && st <> "err" && st <> "newerr" then
+            "BAD:" ^ site_of c ^ " read-error-not-reported outcome " ^ st ^ " (the source failed while it was read: the run must end with an error)"
+          else "ok"), true)
   | (("pfx" | "trunc" | "badhdr") as kind) :: fmt :: file :: ngood :: toks ->
       let toks = List.filter (fun t -> t <> "") toks in
       let fileb = bytes_of_hex file in
